@@ -49,6 +49,34 @@ theorem store_session_is_atomic_replace (fd dfd : Nat) (tmp path : String) (chun
   simp only [implTrace, Facts.C31.storeOps, interp, String.reduceEq, ↓reduceIte]
   exact isAtomicReplace_atomicTrace fd tmp path false chunks _ hne (by simp [Op.harmless])
 
+/-- …and it also makes the rename durable before returning (the best-effort directory fsync is
+in the call list). -/
+theorem store_session_is_durable_replace (fd dfd : Nat) (tmp path : String) (chunks : List Bytes)
+    (hne : tmp ≠ path) :
+    isDurableReplace (implTrace fd dfd tmp path chunks) path chunks.flatten = true := by
+  have h := store_session_is_atomic_replace fd dfd tmp path chunks hne
+  simp only [isDurableReplace, h, Bool.true_and]
+  simp only [implTrace, Facts.C31.storeOps, interp, String.reduceEq, ↓reduceIte]
+  exact (tailOf_atomicTrace fd tmp path false chunks _).symm ▸ (by simp [tailDirSync, Op.harmless])
+
+/-- Any number of saves in a row (each an atomic replacement followed by the directory fsync, each
+temporary name free when its save starts): at every crash point of the whole sequence, under
+power loss, `path` holds the content it had before the first save or the complete content of
+one of the saves — never a mixture, never a partial file. -/
+theorem repeated_saves_safe (path : String) (saves : List (List Op × Bytes)) (s0 : FS)
+    (hq : Quiescent s0 path) (hok : SavesOK path s0 saves) :
+    ∀ s ∈ crashStates (saves.flatMap (·.1)) s0, ∀ r ∈ plReads s path,
+      r = readCur s0 path ∨ ∃ sv ∈ saves, r = some sv.2 :=
+  saves_safe path saves s0 hq hok
+
+/-- A completed durable save leaves the directory quiescent again (the hypothesis of the next
+save) with the new content in place. -/
+theorem durable_replace_leaves_quiescent (tr : List Op) (path : String) (new : Bytes) (s0 : FS)
+    (hq : Quiescent s0 path) (hfresh : ∀ t, tmpOf tr = some t → s0.dir t = none)
+    (h : isDurableReplace tr path new = true) :
+    Quiescent (run tr s0) path ∧ readCur (run tr s0) path = some new :=
+  (durable_save hq hfresh h).2
+
 /-- The pinned tree's `os.WriteFile` (open `O_TRUNC`, write, close) is *not* crash-atomic: for
 every non-empty previous and new session there is a crash point (right after the truncating
 open) where the file is empty — neither the previous nor the new session (defect D17). -/
@@ -81,6 +109,21 @@ example :
     isAtomicReplace
       [.openF 5 "s.123.tmp" true true false false, .write 5 [1, 2], .write 5 [3], .fsync 5, .close 5,
         .rename "s.123.tmp" "s", .openDir 5, .fsync 5, .close 5] "s" [1, 2, 3] = true := by decide
+
+example :
+    isDurableReplace
+      [.openF 5 "s.123.tmp" true true false false, .write 5 [1, 2], .write 5 [3], .fsync 5, .close 5,
+        .rename "s.123.tmp" "s", .openDir 5, .fsync 5, .close 5] "s" [1, 2, 3] = true := by decide
+
+/-- Two saves in a row satisfy `SavesOK` from a concrete directory (temporary name reused). -/
+example : SavesOK "s" (initFS [("s", [7])])
+    [([.openF 5 "t" true true false false, .write 5 [1], .fsync 5, .close 5, .rename "t" "s", .openDir 5,
+        .fsync 5, .close 5], [1]),
+     ([.openF 5 "t" true true false false, .write 5 [2], .fsync 5, .close 5, .rename "t" "s", .openDir 5,
+        .fsync 5, .close 5], [2])] := by
+  refine ⟨by decide, ?_, by decide, ?_, trivial⟩
+  · intro t ht; cases ht; decide
+  · intro t ht; cases ht; decide
 
 example : readCur (initFS [("other", [9]), ("s", [7, 7])]) "s" = some [7, 7] := by decide
 
